@@ -6,9 +6,19 @@
 (* Texts are TLA+ strings; Chars/Ch give character access.  A value is a   *)
 (* record [t, s]: t \in {"str","safe","num","true","false","none"}, s its  *)
 (* text ("" for the last three).  A case is                                *)
-(*   [defaults, attrs : Seq([n, v])   (dictionaries, names unique),        *)
+(*   [defaults, attrs : Seq([n, v])   (dictionaries; names unique, except  *)
+(*                                     when the dictionary is written in   *)
+(*                                     the aggregate form, see below),     *)
 (*    kws : Seq([n, v])]              (extra keywords in template order,   *)
 (*                                     spreads already flattened).         *)
+(* A dictionary written as aggregate keywords (attrs:k=v / defaults:k=v,   *)
+(* literally or contributed by a ...spread) is a list of keywords of the   *)
+(* tag, and "you can supply the same key multiple times, and these will    *)
+(* be all joined together" (docs; quantifier: "repeated keywords,          *)
+(* aggregate attrs:k=v and defaults:k=v forms, spreads"): the entry k of   *)
+(* that dictionary is the space-join of all prefix:k values in template    *)
+(* order.  So attrs / defaults may carry a name several times; DictParts   *)
+(* gives the parts of one entry.                                           *)
 (* HOW attrs/defaults/keywords are written in the tag (positional, kwarg,  *)
 (* attrs:k=v aggregate, ...spread, literal vs variable) does not occur in  *)
 (* Merge: the docs declare these forms equivalent.                         *)
@@ -103,10 +113,14 @@ NameClass(n) == NameClassDef(n)
 HasKey(d, n) == \E i \in 1..Len(d) : d[i].n = n
 Get(d, n) == d[CHOOSE i \in 1..Len(d) : d[i].n = n].v
 Vals(q) == [i \in 1..Len(q) |-> q[i].v]
-Base(c, n) == IF HasKey(c.attrs, n) THEN <<Get(c.attrs, n)>>
-              ELSE IF HasKey(c.defaults, n) THEN <<Get(c.defaults, n)>>
+\* the parts of entry n of a dictionary: one value, or (aggregate form with a repeated prefix:n) several,
+\* joined with one space like any repeated keyword
+DictParts(d, n) == Vals(SelectSeq(d, LAMBDA e : e.n = n))
+Base(c, n) == IF HasKey(c.attrs, n) THEN DictParts(c.attrs, n)
+              ELSE IF HasKey(c.defaults, n) THEN DictParts(c.defaults, n)
               ELSE <<>>
-\* defaults, overridden by attrs, then every keyword of that name in template order
+\* defaults, overridden by attrs (entry by entry: a repeated attrs:n replaces every defaults:n),
+\* then every keyword of that name in template order
 Parts(c, n) == Base(c, n) \o Vals(SelectSeq(c.kws, LAMBDA e : e.n = n))
 
 RECURSIVE Dedup(_, _)
@@ -198,7 +212,10 @@ RoundTripI(its) == DeterminedI(its) =>
 RoundTrip(c) == RoundTripI(Items(c))
 \* attrs win over defaults; keywords never replace, only extend
 OverrideLaw(c) == \A i \in 1..Len(c.attrs) :
-                    LET n == c.attrs[i].n IN Parts(c, n)[1] = c.attrs[i].v
+                    LET n == c.attrs[i].n
+                        own == DictParts(c.attrs, n) IN
+                    /\ SubSeq(Parts(c, n), 1, Len(own)) = own
+                    /\ Len(Parts(c, n)) = Len(own) + Cardinality({j \in 1..Len(c.kws) : c.kws[j].n = n})
 AppendLaw(c) == \A n \in SeqRange(Names(c)) :
                   Len(Parts(c, n)) = Len(Base(c, n)) + Cardinality({i \in 1..Len(c.kws) : c.kws[i].n = n})
 (* ------------- named deviations of the current implementation (KNOWN_FINDINGS) --- *)
